@@ -188,7 +188,7 @@ fn headers(x: &X) -> X {
 /// `drain`).  input: (L early content_length end_mode stream (L burst..) (L op..)), op = (N window): one
 /// `read(&mut buf[..window])` | (L (N limit)): `read_to_bytes(limit)` | (L): `drain()`.
 /// output: (L (L outcome..) consumed): one outcome per executed op (the first error ends the run), `consumed` = bytes
-/// taken from the connection.  A read that pends for ever is cut off after 60 ms and reported as TimedOut (as in `body_phase`).
+/// taken from the connection (0 after an error).  A read that pends for ever is cut off after 60 ms and reported as TimedOut (as in `body_phase`).
 fn poll(x: &X) -> X {
     use tokio::io::AsyncReadExt;
     let l = match x.as_l() { Some(l) if l.len() == 6 => l, _ => return X::bad() };
@@ -239,7 +239,9 @@ fn poll(x: &X) -> X {
                 break;
             }
         }
-        X::L(vec![X::L(outs), X::n(pos.load(Ordering::Relaxed))])
+        // as in `request`: the bytes taken from the connection are reported when nothing failed
+        let ok = outs.iter().all(|o| matches!(o.as_l(), Some([X::N(0), _])));
+        X::L(vec![X::L(outs), X::n(if ok { pos.load(Ordering::Relaxed) } else { 0 })])
     })
 }
 
